@@ -154,6 +154,11 @@ func judgeFaultFree(sc *scenario, res *result) []violation {
 				vs = append(vs, violation{"rewritten-file-no-longer-parses", fmt.Sprintf("exit 0; %s parsed before the rewrite, now: %v; new content %q", t, err, vlib.Short(*after, 200))})
 				continue
 			}
+			// the formatter may attach a comment elsewhere, but a //[tag(...)] comment has to stay a tag: generated code
+			// depends on it. Compared as a multiset over the whole file.
+			if tb, ta := allTags(fb), allTags(fa); tb != ta {
+				vs = append(vs, violation{"rewritten-file-loses-tags", fmt.Sprintf("exit 0; the field tags of %s changed with the rewrite: before %s, after %s; new content %q", t, tb, ta, vlib.Short(*after, 300))})
+			}
 			normalize(&fb)
 			normalize(&fa)
 			if !reflect.DeepEqual(fb, fa) {
@@ -162,6 +167,46 @@ func judgeFaultFree(sc *scenario, res *result) []violation {
 		}
 	}
 	return vs
+}
+
+// allTags renders every tag of the file, sorted.
+func allTags(f bebop.File) string {
+	var l []string
+	add := func(fs []bebop.Field) {
+		for _, fd := range fs {
+			for _, t := range fd.Tags {
+				l = append(l, fmt.Sprintf("%s=%q/%v", t.Key, t.Value, t.Boolean))
+			}
+		}
+	}
+	msg := func(m bebop.Message) {
+		for _, fd := range m.Fields {
+			for _, t := range fd.Tags {
+				l = append(l, fmt.Sprintf("%s=%q/%v", t.Key, t.Value, t.Boolean))
+			}
+		}
+	}
+	for _, st := range f.Structs {
+		add(st.Fields)
+	}
+	for _, m := range f.Messages {
+		msg(m)
+	}
+	for _, u := range f.Unions {
+		for _, uf := range u.Fields {
+			for _, t := range uf.Tags {
+				l = append(l, fmt.Sprintf("%s=%q/%v", t.Key, t.Value, t.Boolean))
+			}
+			if uf.Struct != nil {
+				add(uf.Struct.Fields)
+			}
+			if uf.Message != nil {
+				msg(*uf.Message)
+			}
+		}
+	}
+	sort.Strings(l)
+	return strings.Join(l, " ")
 }
 
 // normalize blanks what the formatter is free to change: comments and the tags derived from them.
